@@ -12,6 +12,8 @@ HarnessError (inconclusive), never a violation.
 """
 from __future__ import annotations
 
+import os
+
 from vf.core import HarnessError
 from vf.cwlgen import normalise, run
 
@@ -89,6 +91,9 @@ def first_errors(sf, n: int = 3) -> list[str]:
 
 def differential(paths: dict, root: str, compare=None) -> Outcome:
     sf, ref = run.run_pair(paths, root)
+    if os.environ.get("VERIF_CWL_TIMING"):
+        with open(os.environ["VERIF_CWL_TIMING"], "a") as f:
+            f.write(f"{os.getpid()} sf={sf.wall:.1f} ref={ref.wall:.1f} ok={sf.ok},{ref.ok}\n")
     first = classify(sf, ref, compare)
     if first.symptom is None:
         return first
